@@ -51,6 +51,12 @@ CHECKS={
  "C14":("E3h",EX,"every group list of length 0..2 (thorough 3) over 8 group names incl. empty, substrings, superstrings and case variants x identity metadata absent / with name / without name x ADMINGROUPS settings through the real Set handler (permitted iff a caller group equals an admin group; refusal leaves the log unchanged); target listing for every list x OIDC on/off x ROC-admin override unset/empty/custom x encodings",
         "identity metadata is injected as gRPC incoming metadata, as the onos-lib-go interceptor does",
         "bounded-exhaustive input enumeration on the real handler against a reference predicate"),
+ "C19":("E3h",EX,"every sequence of <=2 (thorough 3) stream messages (subscribe with prefix absent / empty / naming a target / elems only, entry lists of 0..3 paths over two targets with and without per-path target, three list modes; poll; empty) through the real Subscribe handler with one recording fake client per target and a fake stream: each named target receives exactly its own entries with every field preserved, nobody else receives anything, requests without a target and second subscribes are refused, notifications incl. delete-only ones are relayed 1:1, polls reach exactly the subscribed targets and a failing target ends the stream with an error",
+        "southbound clients are fakes behind the repository's conn-manager interface (the property is about fan-out, not about the device protocol)",
+        "bounded-exhaustive input-sequence enumeration on the real handler against a reference partition"),
+ "C12":("E3h",EX,"a request shape grammar (Set: 7 prefixes x 39 paths x 22 values as update/replace/delete + 23 extension shapes; Get: prefixes x paths x 6 encodings x 4 data types; Capabilities; Subscribe sequences and malformed entries; admin RollbackTransaction / LeafSelectionQuery / GetTransaction / GetConfiguration argument grids) is enumerated exhaustively against three worlds (empty, populated incl. a list entry and a tombstone, configuration without values); every message goes through marshal/unmarshal; the handler and every reconcile step the request causes run under recover(); oracle: no panic anywhere and every call returns",
+        "coverage-guided mutation named in the property's quantifier is sampling (another family); the grammar replaces it and is listed in the evidence file; streaming admin calls are not driven",
+        "bounded-exhaustive input enumeration on the real handlers and controllers (grammar of request shapes x 3 start states)"),
 }
 NOT_YET="check not built yet in this session (planned, see DESIGN.md §4); not claimed until its check exists and passes"
 allp=[json.loads(l)['id'] for l in open('/verif/properties.jsonl')]
